@@ -58,10 +58,16 @@ class Work:
 
 
 _built = {}
+_build_lock = __import__("threading").Lock()
 
 
 def build_harness(work, variant="plain"):
     """Build artdrive from /repo's current working tree with hooks enabled."""
+    with _build_lock:
+        return _build_harness(work, variant)
+
+
+def _build_harness(work, variant):
     if variant in _built:
         return _built[variant]
     out = work.path("artdrive-" + variant)
